@@ -11,14 +11,14 @@ struct Local { uint64_t strings = 0, accepted = 0, roundtrips = 0, ip6 = 0, iden
 
 template <class C> struct Runner {
     FenceBuf fb, fb2; OutBuf ob; Ctx *ctx; Local *lc;
-    Runner(Ctx *c, Local *l) : fb(4), fb2(4), ob(4), ctx(c), lc(l) {}
+    Runner(Ctx *c, Local *l, size_t pages = 4) : fb(pages), fb2(pages), ob(pages), ctx(c), lc(l) {}
     void bad(const Str &s, const Str &what) { ctx->violation("", s, what + fmt(" type=%s", Api<C>::name())); }
     // recompose into a buffer of exactly need+1 characters that ends at a guard page
     bool text_of(const Str &s8, const typename Api<C>::Uri &u, const Str &expect, const char *stage, std::basic_string<C> &out) {
         typedef Api<C> A; int need = -7;
         int rc = A::ToStringCharsRequired(&u, &need);
         if (rc != URI_SUCCESS) { bad(s8, fmt("ToStringCharsRequired failed with %d (%s)", rc, stage)); return false; }
-        if (need != (int)expect.size()) { bad(s8, fmt("charsRequired=%d but the text has %zu characters (%s)", need, expect.size(), stage)); if (need < 0 || need > 4000) return false; }
+        if (need != (int)expect.size()) { bad(s8, fmt("charsRequired=%d but the text has %zu characters (%s)", need, expect.size(), stage)); if (need < 0 || (size_t)need + 2 > ob.bytes / sizeof(C)) return false; }
         C *dst = (C *)ob.end_minus(((size_t)need + 1) * sizeof(C)); int written = -7;
         rc = A::ToString(dst, &u, need + 1, &written);
         if (rc != URI_SUCCESS) { bad(s8, fmt("ToString failed with %d given charsRequired+1 (%s)", rc, stage)); return false; }
@@ -68,7 +68,7 @@ template <class C> struct Runner {
 };
 struct Both {
     Local lc; Runner<char> ra; Runner<wchar_t> rw; Ctx &ctx;
-    Both(Ctx &c) : ra(&c, &lc), rw(&c, &lc), ctx(c) {}
+    Both(Ctx &c, size_t pages = 4) : ra(&c, &lc, pages), rw(&c, &lc, pages), ctx(c) {}
     void run(const char *s, int n) {
         ctx.progress++; lc.strings++;
         DfaRun d = dfa_run<char>(s, n); if (!d.accept) return;
@@ -90,18 +90,20 @@ void run(Ctx &ctx) {
     if (z.octets) octet_product(ctx, [&](const Str &s) { b.run(s.data(), (int)s.size()); });
     uint64_t idx = 0;
     shape_product(ctx.secondary ? 0 : ctx.quick() ? 1 : 2, [&](const Str &s) { if (ctx.mine(idx++)) b.run(s.data(), (int)s.size()); });
+    { Both bs(ctx, 520); uint64_t si = 0; stretch_family(ctx.secondary ? 0 : ctx.quick() ? 1 : 2, [&](const Str &s) { if (ctx.mine(si++) && !ctx.expired()) { bs.run(s.data(), (int)s.size()); ctx.st.count("stretch_family"); } });
+      b.lc.strings += bs.lc.strings; b.lc.accepted += bs.lc.accepted; b.lc.roundtrips += bs.lc.roundtrips; b.lc.ip6 += bs.lc.ip6; b.lc.identical += bs.lc.identical; for (auto &x : bs.lc.shapes) b.lc.shapes.insert(x); }
     ctx.st.count("evaluations", b.lc.strings); ctx.st.count("accepted_strings", b.lc.accepted); ctx.st.count("roundtrips", b.lc.roundtrips); ctx.st.count("ip6_literals", b.lc.ip6);
     ctx.st.count("second_generation_identical", b.lc.identical);
     for (auto &s : b.lc.shapes) ctx.st.distinct("shapes", s);
     if (ctx.worker == 0) { ctx.st.sample("//[A:b::1.2.3.4]:80 -> //[000a:000b:0000:0000:0000:0000:0102:0304]:80"); ctx.st.sample("s://u:p@h:/a//b?#"); ctx.st.count("param_k", z.k); ctx.st.count("param_L", z.L); }
 }
-void replay(Ctx &ctx, const Str &enc) { Both b(ctx); b.run(enc.data(), (int)enc.size()); }
+void replay(Ctx &ctx, const Str &enc) { Both b(ctx, 520); b.run(enc.data(), (int)enc.size()); }
 Str coverage(const Ctx &, const Stats &st) {
     return jkv("states", DFA_NSTATES) + ", " + jkv("transitions", (uint64_t)(DFA_NSTATES - 1) * 256) + ", " + jkv("traces_validated_against_impl", st.get("roundtrips")) + ", " +
            jkv("evaluations", st.get("evaluations")) + ", " + jkv("distinct_nontrivial", st.nset("shapes")) + ", " +
            jkvs("rule", "cases = strings of the C01 sets and the shape product; every accepted string is parsed, recomposed into a buffer of exactly charsRequired+1 characters ending at a guard page, compared character for character with the input (IPv6 literal replaced by the reference's eight-group lowercase form), re-parsed, compared with uriEqualsUri and component-wise, recomposed again, and once more after uriMakeOwner; both character types. distinct_nontrivial = distinct component shapes among accepted strings.") + ", " +
            jkv("accepted_strings", st.get("accepted_strings")) + ", " + jkv("roundtrips", st.get("roundtrips")) + ", " + jkv("ip6_literals", st.get("ip6_literals")) + ", " + jkv("second_generation_identical", st.get("second_generation_identical")) + ", " +
-           jkv("k_extra_states", st.get("param_k")) + ", " + jkv("bruteforce_length", st.get("param_L")) + ", " + jsamples(st);
+           jkv("k_extra_states", st.get("param_k")) + ", " + jkv("bruteforce_length", st.get("param_L")) + ", " + jkv("stretch_family_strings", st.get("stretch_family")) + ", " + jsamples(st);
 }
 Check chk = { "C04", "model_checking", run, replay, coverage, "reference recomposition (RFC 3986 section 5.3) of the reference decomposition reproduces every accepted input (asserted on every case)" };
 REGISTER_CHECK(chk);
